@@ -419,7 +419,7 @@ PPL::Grid::max_min(const Linear_Expression& expr,
       return false;
     }
     if (space_dim == 0) {
-      ext_n = 0;
+      ext_n = expr.inhomogeneous_term();
       ext_d = 1;
       included = true;
       if (point != nullptr) {
@@ -436,9 +436,11 @@ PPL::Grid::max_min(const Linear_Expression& expr,
     }
 
     const Grid_Generator& gen = gen_sys[0];
+    // As gen is a grid generator, homogeneous_assign() must be used:
+    // the inhomogeneous term has to be scaled by the divisor of gen.
     Scalar_Products::homogeneous_assign(ext_n, expr, gen);
-    ext_n += expr.inhomogeneous_term();
     ext_d = gen.divisor();
+    ext_n += expr.inhomogeneous_term() * ext_d;
     // Reduce ext_n and ext_d.
     PPL_DIRTY_TEMP_COEFFICIENT(gcd);
     gcd_assign(gcd, ext_n, ext_d);
